@@ -1,5 +1,6 @@
 import JF.Driver.Core
 import JF.Model.Time
+import JF.Model.Sampling
 namespace JF.Driver
 open JF
 
@@ -14,5 +15,9 @@ def timeComp : Comp := Comp.pure fun
       let t := tm q r; let u := tm q' r'
       joinSp [b01 (Time.eq t u), b01 (Time.lt t u), b01 (Time.gt t u), b01 (Time.le t u),
               b01 (Time.ge t u), b01 (Time.cLt t u)]
+  | ["clock", delta, zf, k] => showT (Sampling.clock Ops.float (fl delta) (zf == "1") (nat! k))
+  | ["end_time", x] => showT (Sampling.endTime Ops.float (fl x))
+  | ["samples_before_end", delta, tend, zf, fuel] =>
+      toString (Sampling.samplesBeforeEnd Ops.float (fl delta) (fl tend) (zf == "1") (nat! fuel) 0)
   | _ => "bad-op"
 end JF.Driver
